@@ -233,6 +233,9 @@ func (e *Enc) encodeCall(fr *Frame, ins ssa.Value, common *ssa.CallCommon, st *S
 	for _, a := range common.Args {
 		args = append(args, e.val(fr, a))
 	}
+	if ci, ok := ins.(ssa.Instruction); ok && ins != nil {
+		e.anchored(fr, "call", ci, st, reach)
+	}
 	var res Val
 	switch ct.kind {
 	case "builtin":
@@ -478,6 +481,7 @@ func (e *Enc) callContract(fr *Frame, ct callTarget, args []Val, common *ssa.Cal
 	post := st
 	if con.HasModifies {
 		e.applyModifies(fr, con, mkctx, post, callee)
+		e.restoreLocals(fr, pre, post, nil)
 	}
 	if !con.Pure {
 		e.havocAlloc(post)
@@ -624,6 +628,8 @@ func (e *Enc) havocCall(fr *Frame, ct callTarget, args []Val, common *ssa.CallCo
 	e.abstracted++
 	e.calleesHavoc[ct.name] = true
 	e.note("call to %s abstracted (no contract): result unconstrained, argument-reachable memory havocked", ct.name)
+	preHavoc := st.clone()
+	defer func() { e.restoreLocals(fr, preHavoc, st, nil) }()
 	for _, a := range args {
 		if a.Typ == nil {
 			continue
@@ -1080,6 +1086,17 @@ func (e *Enc) encodeBuiltin(fr *Frame, ins ssa.Value, common *ssa.CallCommon, ar
 		return Val{T: "niliface"}, st
 	case "ssa:wrapnilchk":
 		return args[0], st
+	case "SliceData", "StringData", "String", "Slice", "Add", "clear":
+		// unsafe views and clear(): abstracted (result unconstrained)
+		e.abstracted++
+		e.note("unsafe/clear builtin %s in %s abstracted", name, fr.fn.Name())
+		if ins == nil || ins.Type() == nil {
+			return Val{}, st
+		}
+		if tup, ok := ins.Type().(*types.Tuple); ok && tup.Len() == 0 {
+			return Val{}, st
+		}
+		return Val{T: e.freshOf("unsafe", ins.Type(), st)}, st
 	}
 	fail("unsupported builtin %s", name)
 	return Val{}, st
@@ -1172,6 +1189,7 @@ func (e *Enc) encodeSend(fr *Frame, ch, x Val, xt types.Type, st *State, reach T
 }
 
 func (e *Enc) encodeSelect(fr *Frame, t *ssa.Select, st *State, reach Term) *State {
+	e.anchored(fr, "select", t, st, reach)
 	n := len(t.States)
 	idx := e.B.declConst(fr.vname(t)+".idx", "Int")
 	lo := 0
